@@ -15,6 +15,13 @@ CLAIMED = {
  'C09': ('every exit of the parser state machine (loops cut by the Hoare rule, sub-parsers and editors abstract) and every exit of every url_aggregator setter keeps the href within the configured maximum length, for every limit L; oversized input is refused', '5 C09'),
  'C10': ('partial: IPv4 number parser, fast dotted-decimal parser (domain-complete, also for the AVX-512 kernel), ends-in-a-number checker, DNS length rule, host delimiter scan and both IP serializers are checked against executable reference specifications written from the Standard\'s prose; host kind is truthful after parse_host and when inherited from a base; the IPv6 parser is not decided yet', '5 C10'),
  'C11': ('the seven percent-encode sets and the escape table are proved equal to the Standard\'s definitions for all 256 byte values; the first-byte-to-encode scanner is proved for any length; all four encoder entry points and both decoders equal reference implementations for an arbitrary 256-bit set on bounded inputs', '5 C11'),
+ 'C04': ('partial: the two URL types are related only through SHARED contracts on twin functions -- both IPv4 parsers equal the Standard\'s IPv4 parser + serializer (thorough tier), the port rules, host-kind truthfulness, href size = buffer length; equality of the two parsers and setter pairs as wholes is NOT decided', '5 C04'),
+ 'C06': ('partial: ASCII lower-casing kernels (any length), the IDNA entry point on all-ASCII domains, the IDNA copy of the forbidden-domain table and the punycode digit maps; the Unicode mapping / NFC / bidi / joining tables and label validation are NOT decided (no Unicode 17 data offline; table look-ups do not solve)', '5 C06'),
+ 'C08': ('can_parse == parse(base) && parse(input, base) at every return for all lengths and limits, given contracts of its three callees and the normalization expansion bound (found and fixed the 3x-shortcut defect); the fast validator agrees with a Standard-derived reference on every definite answer (bounded inputs); validation-only mode of the parser is NOT separately decided', '5 C08'),
+ 'C12': ('partial: the sort comparator is UTF-16 code-unit order on well-formed UTF-8 and a strict weak ordering on arbitrary bytes (bounded keys); form-urlencoded codec round trip via the C11 obligations; the list operations (vector of pairs) are NOT decided', '5 C12'),
+ 'C15': ('partial: the shortcut byte classes of the URLPattern canonicalisers are sound w.r.t. the URL parser (all 256 bytes); the canonicaliser functions and the pattern parser are NOT decided', '5 C15'),
+ 'C16': ('partial: on all-ASCII domains the IDNA entry point is exactly ASCII lower-casing, hence case-insensitive, lower-case and idempotent there; results on non-ASCII input (mapping, NFC, punycode) are NOT decided', '5 C16'),
+ 'C19': ('partial: port rules (<= 65535, default port never stored, digits without sign), refusal of credentials/port on host-less or file URLs, host kind, and the structural part of WF (C07: port digits without leading zero, credentials only with a host, opaque path => no authority, non-opaque path empty or /...) hold for the functions under contract', '5 C19'),
  'C17': ('wrapper layer: each of 32 url wrappers of the C API is proved to return null/empty/false without invoking anything on a failed-parse handle, and otherwise to invoke exactly the corresponding C++ operation with (data,length) passed through and its result returned unchanged; copy/free/owned-string life cycle is leak-free. The C++ operations themselves are other properties; the search-params wrappers are not covered', '5 C17'),
  'C18': ('partial: the SSSE3 delimiter / tab kernels and the AVX-512 IPv4 kernel satisfy the same functional contracts as the SSE2 / scalar ones (deterministic contract => identical results); development-check assertions and the amalgamated build are not decided yet', '5 C18'),
 }
